@@ -59,6 +59,30 @@ def run_once(d, ch, toml="infretis.toml"):
     return out
 
 
+class Killed(BaseException):
+    pass
+
+
+def run_killed(d, ch, kill_after):
+    """The run is killed (no clean-up) when the main loop asks for the (kill_after+1)-th completion."""
+    calls = {"n": 0}
+
+    def order(n):
+        calls["n"] += 1
+        if calls["n"] > kill_after:
+            raise Killed()
+        return ch.choose(n, "complete") if n > 1 else 0
+
+    p = l2.Program(d, order_fn=order)
+    try:
+        p.run("infretis.toml")
+    except Killed:
+        pass
+    finally:
+        os.chdir("/verif")
+        scenario.close_loggers()
+
+
 def judge(o, expect_moves, expect_cstep, tag):
     bad = []
     if o["res"] != "done":
@@ -100,6 +124,21 @@ def _job(args):
                 n += 1
                 for sig, msg in judge(o, steps, steps, "run"):
                     out.append((sig, f"W={W} steps={steps}: {msg}", ch.choices))
+        elif kind == "kill":
+            # W workers, `steps` steps; killed after k completions under every completion order (W-1 jobs
+            # on record), restarted under every completion order
+            def fn(ch):
+                d = os.path.join(base, "run")
+                if os.path.isdir(d):
+                    shutil.rmtree(d)
+                scenario.build(d, B=4, workers=W, steps=steps, seed=seed, maxlength=12, screen=0, allowmaxlength=True)
+                run_killed(d, ch, k)
+                return run_once(d, ch, "restart.toml")
+
+            for ch, o in explore(fn):
+                n += 1
+                for sig, msg in judge(o, steps - k, steps, "kill-restart"):
+                    out.append((sig, f"W={W} steps={steps}, killed after {k} completed moves, restarted: {msg}", ch.choices))
         else:
             # run to k with the default order, then restart to N2 under every completion order
             d0 = os.path.join(base, "first")
@@ -143,6 +182,10 @@ def run(ctx):
         for k in range(W, W + 3):
             for N2 in range(k, k + W + 2):
                 jobs.append(("restart", W, 0, k, N2, 1))
+    for W in (2, 3):
+        for steps in ((W + 2,) if ctx.quick else (W + 1, W + 2, W + 3)):
+            for k in range(1, steps - W + 1 if ctx.quick else steps):
+                jobs.append(("kill", W, steps, k, 0, 1))
     jobs.sort(key=lambda j: -(j[1] * 10 + j[2] + j[4]))
     with mp.get_context("fork").Pool(min(16, os.cpu_count() or 1)) as pool:
         res = pool.map(_job, jobs, chunksize=1)
@@ -167,7 +210,7 @@ def run(ctx):
     ctx.set("evaluations", n + nb)
     ctx.set("traces_validated_against_impl", n + nb)
     ctx.set("scheduler_runs", n)
-    ctx.set("rule", "(a) (workers, steps) and (workers, stop point, new steps) x every completion order of the real scheduler(); "
+    ctx.set("rule", "(a) (workers, steps), (workers, stop point, new steps) and (workers, steps, kill point) x every completion order of the real scheduler(); "
                     "(b) interleavings of the real aiorunner on a virtual loop; distinct = (parameters, number of schedules)")
     ctx.sample(dict(kind="single", W=3, steps=5, orders="all"))
     ctx.assume("inline runner (synchronous run_md through a pickle boundary) stands for the process pool in part (a)")
